@@ -22,11 +22,12 @@ type CaseSpec struct {
 	MaxSteps  int    `json:"max_steps,omitempty"`
 	NoMerge   bool   `json:"no_merge,omitempty"`
 	Tag       string `json:"tag,omitempty"`
-	Weight    int    `json:"-"`               // scheduling hint (heavier cases first)
-	WantModel bool   `json:"-"`               // keep a model of the first path (translator validation)
-	MaxWallS  int    `json:"-"`               // wall-clock budget for the whole case (seconds)
-	Sched     int    `json:"sched,omitempty"` // scheduling policy of the executor (0 lowest id first, 1 highest id first, 2 round robin)
-	SkipReach bool   `json:"-"`               // do not spend a (possibly nonlinear) query on the vacuity guard
+	Weight    int    `json:"-"`                  // scheduling hint (heavier cases first)
+	WantModel bool   `json:"-"`                  // keep a model of the first path (translator validation)
+	MaxWallS  int    `json:"-"`                  // wall-clock budget for the whole case (seconds)
+	Sched     int    `json:"sched,omitempty"`    // scheduling policy of the executor (0 lowest id first, 1 highest id first, 2 round robin)
+	SkipReach bool   `json:"-"`                  // do not spend a (possibly nonlinear) query on the vacuity guard
+	ZeroDen   int    `json:"zero_den,omitempty"` // number of executed divisions per path that may have a zero denominator (explored by forking)
 }
 
 func (c CaseSpec) ID() string {
@@ -40,6 +41,9 @@ func (c CaseSpec) ID() string {
 	s := c.Harness + "(" + strings.Join(ps, ",") + ")"
 	if c.Sched != 0 {
 		s += fmt.Sprintf("@sched%d", c.Sched)
+	}
+	if c.ZeroDen != 0 {
+		s += fmt.Sprintf("@zeroden%d", c.ZeroDen)
 	}
 	if c.Tag != "" {
 		s += "#" + c.Tag
@@ -151,6 +155,7 @@ func RunCase(p *Program, sol *Solver, spec CaseSpec) *CaseResult {
 		ex.deadline = deadline
 		ex.SkipReach = spec.SkipReach
 		ex.Sched = spec.Sched
+		ex.ZeroDen = spec.ZeroDen
 		ex.trackMem = spec.TrackMem
 		if spec.MaxSteps > 0 {
 			ex.MaxSteps = spec.MaxSteps
